@@ -92,7 +92,7 @@ def run_ids(tier, w, vh):
 
 
 
-HIST_CLAUSES = ["AliasesIntact", "OwnerKeeps", "ReleasedAliases", "ReleasedName", "ReleasedEvents", "NoRelationOfDead"]
+HIST_CLAUSES = ["AliasesIntact", "OwnerKeeps", "ClaimableOnNotice", "ReleasedAliases", "ReleasedName", "ReleasedEvents", "NoRelationOfDead"]
 
 
 def hist_cases(tier, rng):
@@ -131,6 +131,9 @@ def run_hist(tier, w, vh, seed):
     if rc != 0 or to:
         raise vlib.Infra("reghist harness failed rc=%s: %s" % (rc, (se or so)[-1200:]))
     lines = open(out).read().splitlines()
+    nopark = sum(1 for x in lines if "nopark" in json.loads(x).get("notice", []))
+    if nopark > len(lines) // 5:
+        raise vlib.Infra("the terminating goroutine was not caught behind its notifications in %d of %d histories (yield point unreg.name)" % (nopark, len(lines)))
     fam.write_mc(w, "MC_RegistryHT", "RegistryH", {}, {"TraceFile": '"reghist_trace.ndjson"', "Checks": fam.tla_set(HIST_CLAUSES)}, constraint="HWM", postcondition="TraceAccepted")
     r = vlib.run_tlc(w, "MC_RegistryHT.tla", "MC_RegistryHT.cfg", workers=1, timeout=900)
     if re.search(r'TRACE_REJECTED_AT_LINE', r.out):
@@ -143,7 +146,7 @@ def run_hist(tier, w, vh, seed):
         e = json.loads(lines[line - 1])
         viol.append({"clause": clause, "history": e, "what": "history %s exit=%s: aliases after termination %s (before: %s), name %r, events %s, relations left %d/%d" %
                      ([(o["op"], o["k"]) for o in e["ops"]], e["exit"], e["aliases"], e["mid"], e["name"], e["events"], e["rels"], e["relst"])})
-    return {"histories": len(hs), "violations": viol, "states": r.distinct, "generated": r.generated, "sample": hs[rng.randrange(len(hs))]}
+    return {"histories": len(hs), "notice_not_caught": nopark, "violations": viol, "states": r.distinct, "generated": r.generated, "sample": hs[rng.randrange(len(hs))]}
 
 
 def main(prop, tier):
@@ -167,7 +170,7 @@ def main(prop, tier):
         drift = [r["trace"] for r in results if r["trace"].get("drift")]
         cov = {"states": sum(r["u1"]["distinct"] for r in results) + ids["design"]["states"] + hist["states"], "transitions": sum(r["u1"]["generated"] for r in results) + ids["design"]["generated"] + hist["generated"],
                "traces_validated_against_impl": execs + hist["histories"] - len(hist["violations"]),
-               "registry_histories": hist["histories"], "registry_history_clauses": HIST_CLAUSES, "registry_history_sample": hist["sample"],
+               "registry_histories": hist["histories"], "registry_histories_notice_not_caught": hist["notice_not_caught"], "registry_history_clauses": HIST_CLAUSES, "registry_history_sample": hist["sample"],
                "samples": [{"scenario": r["scenario"], "plan": r["sample_plan"]} for r in results[:3]],
                "model_edges": sum(r["graph"]["edges"] for r in results), "plans_replayed": sum(r["plans"] for r in results),
                "drift_executions": sum(d["drift"][1] for d in drift), "controller_stalls": sum(r["harness"]["stalls"] for r in results),
